@@ -34,7 +34,7 @@ def random_sorted(rng, n, lo=0, hi=U32):
 def random_pair(rng, maxlen=200):
     """pairs with controlled overlap patterns"""
     kind = rng.choice(["disjoint_lo", "disjoint_hi", "touch", "nested", "interleaved", "identical",
-                       "random", "one_empty", "single", "edge_values"])
+                       "random", "one_empty", "single", "edge_values", "skewed", "skewed"])
     n = rng.randrange(0, maxlen)
     m = rng.randrange(0, maxlen)
     if kind == "disjoint_lo":
@@ -67,6 +67,18 @@ def random_pair(rng, maxlen=200):
     elif kind == "single":
         a = random_sorted(rng, n, 0, 50)
         b = [rng.randrange(0, 52)]
+        if rng.random() < 0.5:
+            a, b = b, a
+    elif kind == "skewed":
+        # one operand tiny, the other 65..5000 times longer, ranges overlapping; the tiny one reaches below / inside /
+        # above the long one in every combination (galloping or bisecting shortcuts live here)
+        m = rng.choice([65, 66, 130, 300, 1000, 5000])
+        lo = rng.choice([0, 10, 10**6])
+        b = random_sorted(rng, m, lo + 5, lo + 5 + rng.choice([2, 4, 50]) * m)
+        n = rng.randrange(1, 5)
+        pool = [lo, lo + 1, b[0], b[-1], b[-1] + 1, b[-1] + 7, b[len(b) // 2], b[1], b[-2]] + rng.sample(b, 3) + \
+               [rng.randrange(b[0], b[-1] + 1) for _ in range(3)]
+        a = sorted(set(rng.sample(pool, n)))
         if rng.random() < 0.5:
             a, b = b, a
     elif kind == "edge_values":
